@@ -297,6 +297,24 @@ def child_main(spec_path: str, out_path: str) -> None:
 
     def run_op(op, local):
         kind = op[0]
+        if kind == "vt":
+            # transpile / optimize with a dialect SETTINGS string ("spark, version=3.0"), repeated; a changing answer is reported
+            _, what, sql, rd, wr, reps = op
+
+            def once():
+                try:
+                    if what == "optimize":
+                        return "opt:" + O.optimize(sqlglot.parse_one(sql, read=wr), dialect=wr).sql(dialect=wr)
+                    return "sql:" + repr(sqlglot.transpile(sql, read=rd, write=wr))
+                except Exception as e:  # noqa
+                    return "raise:" + type(e).__name__ + ":" + str(e).splitlines()[0][:200]
+
+            first = once()
+            for _ in range(max(0, reps - 1)):
+                again = once()
+                if again != first:
+                    return "unstable:" + first + " || " + again
+            return first
         if kind == "sh":
             _, what, sql, d1, d2, opt, reps = op
             first = sh_once(what, sql, d1, d2, opt)
@@ -567,6 +585,10 @@ THEOREMS = [P + n for n in (
     "rebinding_construction_wf",
     "rebinding_loads_frame",
     "inplace_update_leaks_into_other_classes",
+    "shared_dispatch_never_written_per_instance",
+    "readonly_table_never_written",
+    "readonly_table_schedule_independent",
+    "ctor_write_breaks_results",
 )]
 
 PYTHON = sys.executable
@@ -1163,6 +1185,83 @@ def _shallow(st):
     return out
 
 
+# ---- per-class caches handed to instances: never written through an instance -------------------------------------------
+def dispatch_cache_writes(chk: Check) -> dict:
+    """writes to `self._dispatch`, to an UPPER_CASE class table reached through `self`, to a local alias of either, and
+    `_DISPATCH_CACHE[...]` stores, in generator.py, generators/*.py, parser.py, parsers/*.py, tokens.py; plus the
+    version/settings-dependent handlers (for the settings oracle)"""
+    files = ["sqlglot/generator.py", "sqlglot/parser.py", "sqlglot/tokens.py"]
+    for sub in ("generators", "parsers"):
+        d = os.path.join(REPO, "sqlglot", sub)
+        if os.path.isdir(d):
+            files += [f"sqlglot/{sub}/{f}" for f in sorted(os.listdir(d)) if f.endswith(".py")]
+    writes, cache_stores, versioned = [], [], []
+
+    def shared_ref(node, alias):
+        if isinstance(node, ast.Attribute) and isinstance(node.value, ast.Name) and node.value.id == "self" \
+                and (node.attr == "_dispatch" or (node.attr.isupper() and len(node.attr) > 1)):
+            return f"self.{node.attr}"
+        if isinstance(node, ast.Name) and node.id in alias:
+            return alias[node.id]
+        return None
+
+    for rel in files:
+        path = os.path.join(REPO, rel)
+        if not os.path.isfile(path):
+            continue
+        tree = ast.parse(open(path, encoding="utf-8").read())
+        stem = os.path.basename(rel)[:-3]
+        for node in ast.walk(tree):
+            # self.dialect.version <op> (a, b)
+            if isinstance(node, ast.Compare) and isinstance(node.left, ast.Attribute) and node.left.attr == "version" \
+                    and isinstance(node.left.value, ast.Attribute) and node.left.value.attr == "dialect" \
+                    and isinstance(node.comparators[0], ast.Tuple):
+                try:
+                    tup = tuple(int(e.value) for e in node.comparators[0].elts)
+                    versioned.append((stem, tup))
+                except Exception:
+                    pass
+        for fn in [n for n in ast.walk(tree) if isinstance(n, (ast.FunctionDef, ast.AsyncFunctionDef))]:
+            alias = {}
+            for st in ast.walk(fn):
+                if isinstance(st, ast.Assign) and len(st.targets) == 1 and isinstance(st.targets[0], ast.Name):
+                    r = shared_ref(st.value, {})
+                    if r:
+                        alias[st.targets[0].id] = r
+            for node in ast.walk(fn):
+                if isinstance(node, (ast.Assign, ast.Delete, ast.AugAssign)):
+                    targets = node.targets if not isinstance(node, ast.AugAssign) else [node.target]
+                    for tg in targets:
+                        if isinstance(tg, ast.Subscript):
+                            if isinstance(tg.value, ast.Name) and tg.value.id == "_DISPATCH_CACHE":
+                                cache_stores.append(f"{rel}:{node.lineno}: {fn.name}")
+                                continue
+                            r = shared_ref(tg.value, alias)
+                            if r:
+                                writes.append(f"{rel}:{node.lineno}: {fn.name}: {r}[...] store")
+                        elif isinstance(node, ast.AugAssign):
+                            r = shared_ref(tg, alias)
+                            if r:
+                                writes.append(f"{rel}:{node.lineno}: {fn.name}: {r} augmented assignment")
+                if isinstance(node, ast.Call) and isinstance(node.func, ast.Attribute) and node.func.attr in MUTATORS:
+                    r = shared_ref(node.func.value, alias)
+                    if r:
+                        writes.append(f"{rel}:{node.lineno}: {fn.name}: {r}.{node.func.attr}(...)")
+    ok_store = [c for c in cache_stores if c.startswith("sqlglot/generator.py") and c.endswith(": __init__")]
+    writes += [f"{c}: _DISPATCH_CACHE store outside Generator.__init__" for c in cache_stores if c not in ok_store]
+    # sites that belong to a listed known finding (entry field "static_sites": function names) are recorded separately
+    known_fns = {fn for k in getattr(chk, "_known", []) if k.get("property") == "C19" and k.get("kind") == "known"
+                 for fn in k.get("static_sites", [])}
+    known_sites = sorted({w for w in writes if w.split(": ")[1] in known_fns})
+    writes = [w for w in writes if w not in known_sites]
+    chk.cov["known_per_instance_writes"] = known_sites
+    res = {"writes": sorted(set(writes)), "cache_stores": len(ok_store), "versioned": sorted(set(versioned)), "known": known_sites}
+    chk.cov["dispatch_cache"] = {"per_instance_writes": res["writes"], "cache_stores": res["cache_stores"],
+                                 "version_dependent_handlers": [f"{d} {'.'.join(map(str, t))}" for d, t in res["versioned"]]}
+    chk.cov["_versioned"] = res["versioned"]
+    return res
+
+
 def translate(chk: Check) -> str:
     import sqlglot.dialects as D
     import sqlglot.optimizer as O
@@ -1175,6 +1274,7 @@ def translate(chk: Check) -> str:
     shp = source_shape(chk)
     wf = worker_factories(chk)
     mh = metaclass_hooks(chk)
+    dc = dispatch_cache_writes(chk)
     chk.cov["lock_order_scan"] = {"modules_scanned": len(re["scanned"]), "reentry_sites": [f"{m}:{ln}: {w}" for m, ln, w in re["sites"]]}
     chk.cov["_reentry_modules"] = sorted({m for m, _, _ in re["sites"]})
     if len(re["scanned"]) < 60:
@@ -1215,6 +1315,12 @@ def translate(chk: Check) -> str:
         "def metaclassHooks : List String := [" + ", ".join(lean_str(h) for h in mh["hooks"]) + "]\n"
         f"def metaclassRebinds : Nat := {mh['rebinds']}\n"
         "def metaclassMutations : List String := [" + ", ".join(lean_str(h) for h in mh["mutations"]) + "]\n"
+        "/-- the per-class dispatch cache: `_DISPATCH_CACHE[...]` stores in Generator.__init__, and every write through an instance\n"
+        "    (self._dispatch / self.UPPER_CASE table / alias) found in generator.py, generators/*, parser.py, parsers/*, tokens.py -/\n"
+        f"def dispatchCacheStores : Nat := {dc['cache_stores']}\n"
+        "def perInstanceCacheWrites : List String := [" + ", ".join(lean_str(h) for h in dc["writes"]) + "]\n"
+        "/-- informational: such sites that belong to a listed known finding (not part of the obligation) -/\n"
+        "def knownPerInstanceWrites : List String := [" + ", ".join(lean_str(h) for h in dc["known"]) + "]\n"
         "end SqlglotModel.Generated.C19\n"
     )
 
@@ -1381,6 +1487,18 @@ STATEFUL_SQLS = [
 ]
 
 
+CONNECT_A = "SELECT id FROM t START WITH parent IS NULL CONNECT BY PRIOR id = parent AND PRIOR x = y AND PRIOR z = w"
+CONNECT_B = "SELECT prior, a FROM t"
+SQL_TAGS = {CONNECT_A: "connect-by-prior", CONNECT_B: "connect-by-prior"}
+
+
+def connect_by_spec() -> dict:
+    """parsers of one class at the same time: hierarchical queries (PRIOR is a prefix operator inside CONNECT BY) next to a
+    plain column called `prior`"""
+    threads = [[["sh", "transpile", CONNECT_A if w < 3 else CONNECT_B, "snowflake", "snowflake", "", 150]] for w in range(6)]
+    return {"mode": "S", "probe": False, "switch": 1e-6, "hashseed": 0, "timeout": 40, "threads": threads}
+
+
 def shared_spec(chk: Check) -> dict:
     """N threads work through SHARED Dialect instances (resolved once in the main thread, passed as read=/write=/dialect=):
     every call must own its Tokenizer / Parser / Generator"""
@@ -1534,6 +1652,47 @@ def load_interference(chk: Check, runner: Runner, workers: int, boost: int) -> N
                                      {"spec": public_spec(load_spec(order)), "compare_with": public_spec(load_spec([x])),
                                       "observed": {"x": x, "alone": d[2], "after_others": d[3]}}, context={"mode": "L"})
     chk.cov["load_interference"] = {"processes": len(specs), "xy_pairs_checked": pairs, "probes": len(LOAD_PROBES)}
+
+
+SETTING_SQLS = [
+    ("redshift", "SELECT LISTAGG(x, ', ') FROM t"),
+    ("mysql", "SELECT GROUP_CONCAT(x SEPARATOR ', ') FROM t"),
+    ("", "SELECT ANY_VALUE(x), COUNT_IF(x > 1) FROM t"),
+    ("", "SELECT DATE_TRUNC('MONTH', d), TIMESTAMP_TRUNC(ts, DAY) FROM t"),
+    ("duckdb", "SELECT m['a'], arr[1], COUNT_IF(y) FROM t"),
+    ("", "SELECT a, STRING_AGG(b, '-') FROM t GROUP BY a"),
+]
+
+
+def settings_spec(chk: Check, dialect: str, below: str) -> dict:
+    """threads transpile the same statements to ONE dialect class with DIFFERENT settings at the same time
+    (`"spark, version=3.0"` next to `"spark"`; a normalization_strategy variant for the optimizer)"""
+    rng = chk.rng
+    n = rng.choice([4, 6, 8])
+    reps = rng.choice([15, 25])
+    variants = [f"{dialect}, version={below}", dialect]
+    threads = []
+    for w in range(n):
+        wr = variants[w % 2]
+        prog = [["vt", "transpile", sql, rd, wr, reps] for rd, sql in SETTING_SQLS]
+        rng.shuffle(prog)
+        norm = f"{dialect}, normalization_strategy = case_sensitive" if w % 4 >= 2 else dialect
+        prog.append(["vt", "optimize", 'SELECT Foo, "Bar", t.Baz FROM Tbl AS t', "", norm, max(3, reps // 5)])
+        threads.append(prog)
+    return {"mode": "V", "probe": False, "switch": rng.choice([1e-6, 1e-6, 1e-5]), "hashseed": rng.randrange(1000), "timeout": 40,
+            "threads": threads}
+
+
+def _below(t: tuple) -> str:
+    t = list(t)
+    i = len(t) - 1
+    while i >= 0 and t[i] == 0:
+        i -= 1
+    if i < 0:
+        return "0"
+    t[i] -= 1
+    t = t[:i + 1] + [99] * (len(t) - i - 1)
+    return ".".join(map(str, t)) if len(t) > 1 else f"{t[0]}.0"
 
 
 def route_targets() -> list:
@@ -1899,8 +2058,12 @@ def check_run(chk: Check, out: dict, base: Baseline, runner: Runner) -> list:
             if early:
                 kind = "early-registry-read:" + kind
             key = f"{kind}:{op[0]}:{exc}:{where}"
+            if op[0] == "vt":
+                key = f"settings:{'unstable' if r.startswith('unstable:') else kind}:{op[1]}:{op[4].split(',')[0]}"
             if op[0] == "sh":
                 key = f"shared-instance:{'unstable' if r.startswith('unstable:') else kind}:{op[1]}:{op[5] or 'noopt'}"
+                if op[2] in SQL_TAGS:
+                    key += ":" + SQL_TAGS[op[2]]
             bad.append((key,
                         f"thread {t} call #{j} {op} gave {r[:300]!r}; run alone it gives {alone[:300]!r}",
                         {"thread": t, "index": j, "op": op, "got": r[:2000], "alone": alone[:2000]}))
@@ -2092,8 +2255,14 @@ def run(chk: Check) -> None:
             pick = sorted(targets, key=lambda tg: tg[2] not in flagged)
         routes = [route_spec(*tg) for tg in pick]
         chk.cov["route_runs"] = {"targets": len(targets), "run": len(routes)}
-        shared = [shared_spec(chk) for _ in range(chk.pick(6, 40) * boost)]
-        specs = corpus + routes + shared + specs
+        shared = [connect_by_spec()] + [shared_spec(chk) for _ in range(chk.pick(6, 40) * boost)]
+        # one dialect class, different settings at the same time: the dialects (and version thresholds) whose handlers read
+        # `self.dialect.version` are found by ast; children of a dialect class share its generator (databricks -> spark)
+        versioned = sorted({(d, _below(t)) for d, t in chk.cov.pop("_versioned", [])})
+        extra = [("databricks", b) for d, b in versioned if d == "spark"]
+        settings = [settings_spec(chk, d, b) for _ in range(chk.pick(1, 6) * boost) for d, b in versioned + extra]
+        chk.cov["settings_runs"] = {"dialect_versions": [f"{d} < {b}" for d, b in versioned + extra], "run": len(settings)}
+        specs = corpus + routes + shared + settings + specs
         base.ensure(list(all_ops(specs)), True)
         t0 = time.time()
         load_interference(chk, runner, workers, boost)
